@@ -96,10 +96,10 @@ func checkC20(c *Ctx) {
 	c.assumptions = []string{"process death only (no power loss): rename atomicity on a live kernel"}
 	n := c.N(400, 60000)
 	c.Parallel(n, 0, func(i int) { c.signerSequence(i, c.Rng("c20", i)) })
-	kills := c.N(40, 2000)
+	kills := c.N(80, 2000)
 	c.Parallel(kills, 8, func(i int) { c.signerKill(100000+i, c.Rng("c20kill", i)) })
 	// the same through the process-start path of the node: the signer is the one NewRigoNode hands to the consensus engine
-	nodeKills := c.N(4, 120)
+	nodeKills := c.N(8, 120)
 	c.Parallel(nodeKills, 4, func(i int) { c.signerNodeKill(200000+i, c.Rng("c20nodekill", i)) })
 	c.Require("accepted-advances", "same-message-replays", "timestamp-only-replays", "refused-conflicts", "refused-regressions", "reloads", "kills", "node-path-kills")
 }
